@@ -93,7 +93,7 @@ const (
 // hostileACRM / ACRH / ACRPN value pools
 var (
 	hostileACRMs = [][]string{nil, {}, {""}, {"GET"}, {"PUT"}, {"put"}, {"Put"}, {"PATCH"}, {"patch"}, {"DELETE"}, {"OPTIONS"}, {"CHICKEN"}, {"chicken"},
-		{"CONNECT"}, {"PUT", "DELETE"}, {"DELETE", "PUT"}, {"GET", "PUT"}, {"PUT "}, {" PUT"}, {"PUT,DELETE"}, {"*"}, {"\x00"}, {"PUT\x00"}, {"é"}, {bigString}, {"CANARY"}}
+		{"CONNECT"}, {"get"}, {"Post"}, {"head"}, {"gET"}, {"options"}, {"PUT", "DELETE"}, {"DELETE", "PUT"}, {"GET", "PUT"}, {"PUT "}, {" PUT"}, {"PUT,DELETE"}, {"*"}, {"\x00"}, {"PUT\x00"}, {"é"}, {bigString}, {"CANARY"}}
 	hostileACRPNs = [][]string{nil, nil, nil, {}, {"true"}, {"true"}, {"TRUE"}, {"false"}, {""}, {"true", "false"}, {"false", "true"}, {" true"}, {"1"}}
 )
 
